@@ -3,32 +3,42 @@
 (* the abstract machine allows.  Arguments are read from the specification's*)
 (* OWN register file, never from the log; the logged result is the witness  *)
 (* for the contract.  One action per trace line, so the search is linear.   *)
+(*                                                                          *)
+(* The contract is evaluated as a state invariant on (prev, reg, l) rather  *)
+(* than inside the action: TLC memoises argument expressions only when it   *)
+(* evaluates state predicates, and the deeper geometric contracts are       *)
+(* exponentially slow without that (measured: 60 s -> 10 ms per call).      *)
 EXTENDS Api, Json, IOUtils
 
-VARIABLES reg, l
-vars == <<reg, l>>
+VARIABLES reg,   \* the machine's register file
+          prev,  \* the register file before the last step (the arguments of the last call)
+          l      \* next trace line to consume
+vars == <<reg, prev, l>>
 NREG == 8
 Rec == ndJsonDeserialize(IOEnv.TRACE)
 Nil == [t |-> "Nil", c |-> <<>>]
 
-ArgVals(as) == [i \in 1..Len(as) |-> reg[as[i]]]
-
-TraceInit == l = 1 /\ reg = [i \in 1..NREG |-> Nil]
+TraceInit == l = 1 /\ reg = [i \in 1..NREG |-> Nil] /\ prev = reg
 
 TraceReset == /\ l <= Len(Rec) /\ Rec[l].ev = "reset"
               /\ reg' = [i \in 1..NREG |-> Rec[l].regs[i]]
+              /\ prev' = reg
               /\ l' = l + 1
 
 TraceCall == /\ l <= Len(Rec) /\ Rec[l].ev = "call"
-             /\ LET e == Rec[l] IN
-                  /\ Rel(e.op, e.sc, ArgVals(e.a), e.res)
-                  /\ reg' = [reg EXCEPT ![e.d] = e.res]
+             /\ reg' = [reg EXCEPT ![Rec[l].d] = Rec[l].res]
+             /\ prev' = reg
              /\ l' = l + 1
 
 TraceNext == TraceReset \/ TraceCall
 TraceSpec == TraceInit /\ [][TraceNext]_vars
 
-\* accepted iff every line was consumed; otherwise report the first unmatched line
+\* the step that led to this state was allowed by the contract of its op
+Conforms == l > 1 => LET e == Rec[l - 1] IN
+              e.ev = "call" => \/ Rel(e.op, e.sc, e.f, [i \in 1..Len(e.a) |-> prev[e.a[i]]], e.res)
+                               \/ Print(<<"REJECTED", l - 1, ToJson(e)>>, FALSE)
+
+\* accepted iff every line was consumed (a contract failure is reported as a violation of Conforms)
 Accepted == LET d == TLCGet("stats").diameter IN
             IF d - 1 = Len(Rec) THEN TRUE
             ELSE Print(<<"REJECTED", d, ToJson(Rec[d])>>, FALSE)
